@@ -22,9 +22,7 @@ def main():
         cfg = "SPECIFICATION Spec\nCONSTANTS\n Keys = %s\n Vals = %s\n Links = %s\nINVARIANT WalkOK\n" % (keys, vals, links)
         r = tlc.run('MergeMC', cfg, timeout=3400)
         ck.add_tlc(r.summary(), 'MergeMC keys=%s vals=%s links=%s' % (keys, vals, links))
-        if not r.ok:
-            ck.violation('TLC: the merge walk differs from the declarative specification: %s' % r.out[-1500:],
-                         dict(kind='tlc'))
+        common.tlc_verdict(ck, r, ck.notes['tlc_runs'][-1]['name'])
     # 2. conformance: the real classes on every triple, judged by TLC against the walk
     fams = (['OO', 'II', 'LQ', 'UF', 'fs', 'OI'] if quick else embed.FAMILIES)
     plan = []
